@@ -89,6 +89,16 @@ def main():
                 res["checks"][c]["stderr"] = err[-800:]
         dst = os.path.join(ROOT, "seeded", name)
         os.makedirs(dst, exist_ok=True)
+        if not tests and os.path.exists(os.path.join(dst, "meta.json")):
+            # keep the earlier confirmation that the pinned suite passes with the change
+            try:
+                prev = json.load(open(os.path.join(dst, "meta.json"))).get("confirmed_by_me", {})
+                for k in ("tests", "tests_pass", "tests_s"):
+                    if k in prev:
+                        res[k] = prev[k]
+                res["history"] = prev.get("history", []) + [{"checks": prev.get("checks")}]
+            except Exception:
+                pass
         shutil.copy(os.path.join(src, "patch.diff"), dst)
         shutil.copy(demo, dst)
         meta["confirmed_by_me"] = res
